@@ -1,14 +1,13 @@
-SPECIFICATION GSpec
+SPECIFICATION Spec
 CONSTANTS
   Tasks = {1, 2, 3}
   Queries = {1, 2, 3, 4}
-  Deps <- DepsA
-  Roots <- RootsA
+  Deps <- DepsDef
+  Roots <- Roots3
   SubscribeLate = FALSE
-  MaxAbandon = 0
+  MaxAbandon = 1
   SilentAbandon = FALSE
-INVARIANT Emit
 INVARIANT SingleFlight
 INVARIANT OncePerEpoch
-VIEW View
+INVARIANT NoOrphanWaiter
 CHECK_DEADLOCK FALSE
